@@ -34,8 +34,9 @@ def run(chk):
     if chk.tier == 'quick':
         rnd = random.Random(chk.seed)
         single = [c for c in cases if len(c['settings']) <= 1]
-        double = [c for c in cases if len(c['settings']) > 1]
-        cases = single + rnd.sample(double, min(120, len(double)))
+        double = [c for c in cases if len(c['settings']) == 2]
+        triple = [c for c in cases if len(c['settings']) > 2]       # duplicate selectors, adjacent and not: always all of them
+        cases = single + triple + rnd.sample(double, min(120, len(double)))
     with ProcessPoolExecutor(14) as ex:
         outs = list(ex.map(_gen, cases, chunksize=4))
     for c, (got, msg) in zip(cases, outs):
